@@ -503,8 +503,14 @@ def build(rp, world, case):
             dict.update(t, {
                 'uid': uid_s(u), 'type': 'task', 'state': rps.AGENT_EXECUTING_PENDING, 'origin': 'client',
                 'task_sandbox_path': '/nonexistent/sbox/%s' % uid_s(u),
+                # the description attributes which the executor reads outside of the script generation:
+                # timeout / startup_timeout (handle_timeout), stdout / stderr (_handle_task), and stage_on_error
+                # (not read by the unchanged code; the launch-error and cancel paths must not depend on it)
                 'description': {'executable': 'true', 'ranks': 1,
-                                'timeout': 5.0 if td.get('timeout') else 0.0, 'startup_timeout': 0.0},
+                                'timeout': 5.0 if (td.get('timeout') and not td.get('startup')) else 0.0,
+                                'startup_timeout': 5.0 if (td.get('timeout') and td.get('startup')) else 0.0,
+                                'stage_on_error': bool(td.get('stage_on_error')),
+                                'stdout': td.get('stdout'), 'stderr': td.get('stderr')},
                 'slots': {}})
             tasks[u] = t
             things.append(t)
@@ -608,7 +614,7 @@ def run_case(rp, case, max_lines=400, max_steps=None):
     """Replay case['sched'] on the real methods, then complete to quiescence."""
     ntasks = sum(len(b) for b in case['batches'])
     if max_steps is None:
-        max_steps = 600 + 16 * ntasks
+        max_steps = 600 + 16 * ntasks + 2 * sum(len(m) for m in case.get('cancels', []))
     max_lines += 12 * ntasks        # loops over the batch that touch nothing shared
     world = World()
     ex, tasks, patches, codes, popen_mod = build(rp, world, case)
@@ -826,7 +832,9 @@ def gen_scenario(rng, ntasks=None):
     tds = []
     for u in uids:
         f = 'none' if rng.random() < 0.7 else rng.choice(FAULTS[1:])
-        tds.append({'uid': u, 'fault': f, 'timeout': rng.random() < 0.3, 'stubborn': rng.random() < 0.3})
+        tds.append({'uid': u, 'fault': f, 'timeout': rng.random() < 0.3, 'stubborn': rng.random() < 0.3,
+                    'stage_on_error': rng.random() < 0.4, 'startup': rng.random() < 0.3,
+                    'stdout': rng.choice([None, 'out.txt', '/abs/out.txt']), 'stderr': rng.choice([None, '/abs/err'])})
     # one or two batches
     if n > 1 and rng.random() < 0.4:
         k = rng.randint(1, n - 1)
@@ -863,6 +871,22 @@ def gen_sched(rng, sc, length=None):
             w = [rng.choice([0.2, 1, 1, 2, 4]) for _ in range(4)]
     return out
 
+
+
+def scale_cancel_cases(rng, sizes, split=False, positions=('first', 'middle', 'last')):
+    """a cancel request (or two adding up) of many uids -- tasks elsewhere in the pilot -- which also names a task
+    that the executor meets only LATER (it is delivered after the request was handled): first, in the middle and
+    last in the request; a bystander is delivered with it.  The handler registers the uids and looks every one up."""
+    for n in sizes:
+        for pos in positions:
+            fill = list(range(10001, 10001 + n - 1))
+            k = {'first': 0, 'middle': (n - 1) // 2, 'last': n - 1}[pos]
+            m = fill[:k] + [1] + fill[k:]
+            cancels = [m[:n // 3], m[n // 3:]] if split else [m]
+            sc = {'batches': [[{'uid': 1, 'fault': 'none', 'timeout': False, 'stubborn': False},
+                               {'uid': 2, 'fault': 'none', 'timeout': False, 'stubborn': False}]],
+                  'cancels': cancels, 'exit_codes': {'1': 0, '2': rng.choice([0, 3])}}
+            yield dict(sc, sched=['C'] * (n + len(cancels)))
 
 
 def bulk_cancel_cases(rng, n=4):
@@ -946,4 +970,9 @@ def gen_cancel_cases(rng, n):
     for c in exit_before_poll_cases(rng):
         yield c
     for c in bulk_cancel_cases(rng):
+        yield c
+    big = n > 1000          # thorough tier
+    for c in scale_cancel_cases(rng, [1025, 1500, 2200, 3000] if big else [1100]):
+        yield c
+    for c in scale_cancel_cases(rng, [1300, 2600] if big else [1300], split=True, positions=('first', 'middle') if big else ('first',)):
         yield c
